@@ -171,3 +171,167 @@ Proof.
   destruct (decode_prop (prop_group v m d)) as [sp|]; [|contradiction].
   exists sp. split; [reflexivity | exact Hmatch].
 Qed.
+
+(* ---------- whole stores: the library's full read equals the specification decoding ---------- *)
+Definition decode_kv (kv : string * znode) : option (string * sprop) :=
+  match decode_prop (snd kv) with Some p => Some (fst kv, p) | None => None end.
+
+Definition rel_kv (s : string * sprop) (p : string * prop) : Prop :=
+  fst s = fst p /\ sprop_eqb (snd s) (of_prop (snd p)) = true.
+
+Lemma decode_all root grp len pmd : forall pc ps,
+  (forall name node, In (name, node) pc -> exists pm, alookup name pmd = Some pm /\ prop_conformant len pm node) ->
+  (forall name node, In (name, node) pc -> get_path root [grp; path_PROPS; name] = Some node) ->
+  load_props root grp (akeys pc) pmd None = Ok ps ->
+  exists sps, all_some (map decode_kv pc) = Some sps /\ Forall2 rel_kv sps ps.
+Proof.
+  unfold load_props. induction pc as [|[name node] pc IH]; intros ps Hconf Hget H; cbn [akeys map mapM] in H.
+  - inversion H; subst. exists []. split; [reflexivity | constructor].
+  - destruct (Hconf name node (or_introl eq_refl)) as [pm [Hl Hc]].
+    pose proof Hc as Hc'. destruct Hc' as (a & ch & -> & _).
+    destruct (prop_agree root grp name len pm a ch (Hget name _ (or_introl eq_refl)) Hc) as [zp [Hr Hmatch]].
+    cbn [fst] in H. rewrite Hr in H. cbn [rbind] in H. rewrite Hl in H.
+    destruct (load_prop zp None pm) as [p|e]; [|discriminate]. cbn [rbind] in H.
+    match type of H with match ?m with _ => _ end = _ => destruct m as [ps'|e] eqn:Em; [|discriminate] end.
+    inversion H; subst ps; clear H.
+    destruct (decode_prop (ZG a ch)) as [sp|] eqn:Ed; [|contradiction].
+    destruct (IH ps') as [sps [Hs HF]].
+    + intros n0 nd0 Hin. apply Hconf. right. exact Hin.
+    + intros n0 nd0 Hin. apply Hget. right. exact Hin.
+    + exact Em.
+    + exists ((name, sp) :: sps). split.
+      * cbn [map all_some]. unfold decode_kv at 1. cbn [fst snd]. rewrite Ed, Hs. reflexivity.
+      * constructor; [split; [reflexivity | exact Hmatch] | exact HF].
+Qed.
+
+Lemma forall2_dict_eqb : forall sps ps,
+  Forall2 rel_kv sps ps -> NoDup (akeys ps) -> dict_eqb sprop_eqb sps (of_props ps) = true.
+Proof.
+  intros sps ps HF Hnd. unfold dict_eqb.
+  assert (Hlen : length sps = length (of_props ps)).
+  { unfold of_props. rewrite map_length. clear Hnd. induction HF as [|x y l l' _ _ IH]; cbn [length]; [reflexivity | rewrite IH; reflexivity]. }
+  rewrite Hlen, Nat.eqb_refl. cbn [andb].
+  apply forallb_forall. intros [k s] Hin.
+  (* find the partner of (k, s) *)
+  assert (Hp : exists p, In (k, p) ps /\ sprop_eqb s (of_prop p) = true).
+  { clear Hnd Hlen. induction HF as [|[k1 s1] [k2 p2] l l' [Hk Hs] _ IH]; [destruct Hin|].
+    cbn [fst snd] in *. destruct Hin as [Heq|Hin].
+    - inversion Heq; subst. exists p2. split; [left; reflexivity | exact Hs].
+    - destruct (IH Hin) as [p [Hp1 Hp2]]. exists p. split; [right; exact Hp1 | exact Hp2]. }
+  destruct Hp as [p [Hinp Heq]]. cbn [fst snd].
+  rewrite (alookup_in_nodup k (of_prop p) (of_props ps)).
+  - exact Heq.
+  - unfold of_props, akeys. rewrite map_map. exact Hnd.
+  - unfold of_props. apply in_map_iff. exists (k, p). split; [reflexivity | exact Hinp].
+Qed.
+
+(* property groups of a nodes/edges group are uniquely named (true of every real hierarchy: members are a dict) *)
+Definition unique_members (root : znode) : Prop :=
+  forall grp g pg, grp = path_NODES \/ grp = path_EDGES ->
+    get root grp = Some g -> get g path_PROPS = Some pg -> NoDup (akeys (children pg)).
+
+Lemma group_converse root grp (md_props : list (string * pmeta)) len ga gch ps :
+  unique_members root -> grp = path_NODES \/ grp = path_EDGES -> get root grp = Some (ZG ga gch) ->
+  match alookup path_PROPS gch with
+  | None => md_props = []
+  | Some pg => is_group pg = true /\ props_conformant len md_props pg
+  end ->
+  forall names, prop_names root grp = Ok names ->
+  load_props root grp names md_props None = Ok ps ->
+  exists sps, decode_props (ZG ga gch) = Some sps /\ dict_eqb sprop_eqb sps (of_props (dict_of ps)) = true.
+Proof.
+  intros Huniq Hgrp0 Hg Hconf names Hnames Hload.
+  unfold prop_names, expect_group in Hnames. rewrite Hg in Hnames. cbn [rbind] in Hnames.
+  unfold decode_props, member. change "props" with path_PROPS.
+  unfold get in Hnames. cbn [children] in Hnames.
+  destruct (alookup path_PROPS gch) as [pg|] eqn:Ep.
+  - destruct Hconf as [Hgrp [Hkeys Hall]]. destruct pg as [x|pa pc]; [discriminate|]. inversion Hnames; subst names; clear Hnames.
+    assert (Hallg : forall kv, In kv pc -> is_group (snd kv) = true).
+    { intros [n0 nd0] Hin. destruct (Hall n0 nd0 Hin) as [pm [_ (a & ch & -> & _)]]. reflexivity. }
+    rewrite (ReadLemmas.filter_all _ pc Hallg) in Hload.
+    assert (Hnd : NoDup (akeys pc)).
+    { apply (Huniq grp (ZG ga gch) (ZG pa pc) Hgrp0 Hg). unfold get. cbn [children]. exact Ep. }
+    destruct (decode_all root grp len md_props pc ps) as [sps [Hs HF]].
+    + intros n0 nd0 Hin. apply Hall. exact Hin.
+    + intros n0 nd0 Hin. cbn [get_path]. rewrite Hg. unfold get at 1. cbn [children]. rewrite Ep.
+      unfold get. cbn [children]. rewrite (alookup_in_nodup n0 nd0 pc Hnd Hin). reflexivity.
+    + exact Hload.
+    + exists sps. split; [exact Hs|].
+      destruct (load_props_spec _ _ _ _ _ _ Hload) as [Hk _].
+      assert (Hndps : NoDup (akeys ps)) by (rewrite Hk; exact Hnd).
+      rewrite (ReadLemmas.dict_of_nodup _ Hndps). apply forall2_dict_eqb; assumption.
+  - inversion Hnames; subst names. unfold load_props in Hload. cbn in Hload. inversion Hload; subst ps.
+    exists []. split; reflexivity.
+Qed.
+
+Theorem read_is_spec_decode k root g :
+  unique_members root ->
+  read_to_memory k (Some root) true None None = Ok g ->
+  exists sg, spec_decode root = Some sg /\ sgraph_eqb sg (of_mgraph g) = true.
+Proof.
+  intros Huniq H. unfold read_to_memory, reader_init in H.
+  destruct (validate_structure k (Some root)) as [[]|e] eqn:Ev; [|discriminate]. cbn [rbind] in H.
+  apply validate_iff in Ev.
+  destruct Ev as (md & Hmd & na & nch & ea & ech & nids & eids & Hng & Heg & Hni & Hei & _ & _ & _ & _ & Hnp & Hep & _).
+  destruct root as [x|ra rch]; [cbn in Hng; discriminate|]. cbn [open_storelike rbind] in H.
+  unfold read_metadata in H. rewrite Hmd in H. cbn [rbind] in H.
+  cbn [get_path] in H. rewrite Hng, Heg in H. unfold get at 1 2 in H. cbn [children] in H. rewrite Hni, Hei in H. cbn [rbind] in H.
+  destruct (prop_names (ZG ra rch) path_NODES) as [nn|e] eqn:Enn; [|discriminate].
+  destruct (prop_names (ZG ra rch) path_EDGES) as [en|e] eqn:Een; [|discriminate]. cbn [rbind] in H.
+  unfold build in H. cbn [rd_nnames rd_enames rd_root rd_md rd_nids rd_eids mask_rows] in H.
+  destruct (mapM (read_prop (ZG ra rch) path_NODES) nn) as [zn|e]; [|discriminate].
+  destruct (mapM (read_prop (ZG ra rch) path_EDGES) en) as [ze|e]; [|discriminate]. cbn [rbind] in H.
+  destruct (load_props (ZG ra rch) path_NODES nn (md_nprops md) None) as [nps|e] eqn:Enp; [|discriminate]. cbn [rbind] in H.
+  destruct (load_props (ZG ra rch) path_EDGES en (md_eprops md) None) as [eps|e] eqn:Eep; [|discriminate]. cbn [rbind] in H.
+  inversion H; subst g; clear H.
+  destruct (group_converse _ path_NODES (md_nprops md) (hd 0%nat (a_shape nids)) na nch nps Huniq (or_introl eq_refl) Hng Hnp nn Enn Enp) as [snp [Hsn Hen]].
+  destruct (group_converse _ path_EDGES (md_eprops md) (hd 0%nat (a_shape eids)) ea ech eps Huniq (or_intror eq_refl) Heg Hep en Een Eep) as [sep [Hse Hee]].
+  unfold spec_decode, member. change "nodes" with path_NODES. change "edges" with path_EDGES. change "ids" with path_IDS.
+  unfold get in Hng, Heg. cbn [children] in Hng, Heg. rewrite Hng, Heg, Hni, Hei, Hsn, Hse.
+  eexists. split; [reflexivity|].
+  unfold sgraph_eqb, of_mgraph. cbn [sg_nids sg_eids sg_nprops sg_eprops g_nids g_eids g_nprops g_eprops].
+  rewrite Hen, Hee. unfold arr_eqb. rewrite !dtype_eqb_refl, !natlist_eqb_refl, !zlist_eqb_refl. reflexivity.
+Qed.
+
+(* ---------- forward, whole store: what write_arrays leaves decodes, by the specification, to the graph written ---------- *)
+From Geff Require Import C01Lemmas.
+
+Lemma unique_members_layout pre g nps md' n e :
+  alookup path_NODES (base_children pre) = None -> alookup path_EDGES (base_children pre) = None ->
+  wf_props n nps -> wf_props e (w_eprops g) -> unique_members (layout pre g nps md').
+Proof.
+  intros Hn He Hwn Hwe grp gg pg Hgrp Hget Hp.
+  assert (Hgn : get (layout pre g nps md') path_NODES = Some (grp_node (w_nids g) nps)).
+  { unfold layout, get. cbn [children]. rewrite alookup_app, Hn. reflexivity. }
+  assert (Hge : get (layout pre g nps md') path_EDGES = Some (grp_node (w_eids g) (w_eprops g))).
+  { unfold layout, get. cbn [children]. rewrite alookup_app, He. reflexivity. }
+  assert (Hgen : forall ids ops m0, wf_props m0 ops -> get (grp_node ids ops) path_PROPS = Some pg -> NoDup (akeys (children pg))).
+  { intros ids ops m0 Hw Hq. unfold get, grp_node in Hq. cbn [children alookup] in Hq.
+    change (String.eqb path_PROPS path_IDS) with false in Hq. cbn [alookup] in Hq.
+    destruct ops as [ps|]; cbn in Hq; [|discriminate]. inversion Hq; subst pg.
+    cbn [children]. rewrite akeys_stored. apply (Hw ps eq_refl). }
+  destruct Hgrp as [ -> | -> ].
+  - rewrite Hgn in Hget. inversion Hget; subst gg. exact (Hgen _ _ n Hwn Hp).
+  - rewrite Hge in Hget. inversion Hget; subst gg. exact (Hgen _ _ e Hwe Hp).
+Qed.
+
+Theorem write_then_spec_decode k pre g md md' n e ov :
+  clean k pre -> wf_input g md n e -> final_metadata g md = Ok md' ->
+  exists tr post sg,
+    write_arrays k g md true ov (init pre) = (mkst (Some post) tr, Ok tt) /\
+    validate_structure k (Some post) = Ok tt /\
+    spec_decode post = Some sg /\
+    sgraph_eqb sg (mksg (w_nids g) (w_eids g)
+                        (of_props (up_props (backfill (w_nids g) md (w_nprops g))))
+                        (of_props (up_props (w_eprops g)))) = true.
+Proof.
+  intros Hc Hwf Hfm.
+  set (nps := backfill (w_nids g) md (w_nprops g)) in *.
+  assert (Hcn : alookup path_NODES (base_children pre) = None /\ alookup path_EDGES (base_children pre) = None).
+  { destruct pre as [[x|a0 ch0]|]; cbn [clean] in Hc; cbn; [contradiction | tauto | auto]. }
+  destruct Hcn as [Hcn Hce].
+  destruct (write_then_read_layout k pre g md md' n e ov Hc Hwf Hfm) as [[tr Hw] [Hv Hr]]. fold nps in Hw, Hv, Hr.
+  destruct (read_is_spec_decode k _ _ (unique_members_layout pre g nps md' n e Hcn Hce (wi_nprops _ _ _ _ Hwf) (wi_eprops _ _ _ _ Hwf)) Hr)
+    as [sg [Hs He]].
+  exists tr, (layout pre g nps md'), sg. split; [exact Hw|]. split; [exact Hv|]. split; [exact Hs | exact He].
+Qed.
